@@ -47,12 +47,12 @@ P['C06'] = dict(
     mismatch_meaning='a frame was delivered / refused / signed differently from the model proved to implement the signing rule: concrete failing frame',
 )
 P['C07'] = dict(
-    rule='all sequences over the timestamp alphabet {0,1,5,999999,10^6,10^6+1,2*10^6-1,2*10^6,2*10^6+1,2^47,2^48-10^6-1,2^48-10^6,2^48-1} up to length 3 (quick) / 4 (thorough), random walks of length 4..15 with steps around the window edge; every frame correctly signed; result sequence of a keyed frame.Reader compared with the model; outgoing timestamps of keyed writers bracketed by clock reads and checked non-decreasing. Non-trivial: at least one frame accepted.; the same reader hearing several senders (system / component / link ids differ): all pairs over the boundary alphabet from two senders, random walks over six senders — one newest timestamp whoever sent it',
+    rule='all sequences over the timestamp alphabet {0,1,5,999999,10^6,10^6+1,2*10^6-1,2*10^6,2*10^6+1,2^47,2^48-10^6-1,2^48-10^6,2^48-1} up to length 3 (quick) / 4 (thorough), random walks of length 4..15 with steps around the window edge; every frame correctly signed; result sequence of a keyed frame.Reader compared with the model; outgoing timestamps of keyed writers bracketed by clock reads and checked non-decreasing. Non-trivial: at least one frame accepted.; the same reader hearing several senders (system / component / link ids differ): all pairs over the boundary alphabet from two senders, random walks over six senders — one newest timestamp whoever sent it; all pairs over the boundary alphabet through a keyed reader whose dialect does not contain the message of the frames',
     assumptions=['time.Since is monotone (Go monotonic clock)'],
     mismatch_meaning='the reader accepted or refused a correctly signed frame differently from the proved window function: concrete timestamp history',
 )
 P['C09'] = dict(
-    rule='all 54 small initialisation configurations; write histories of 300..700 messages (beyond the 256 wrap) mixing decoded and raw messages, rejected writes (raw id outside the dialect, ids above 255 on v1) at random positions, over random configurations (version, system id, component id incl. 0, key, link id) through streamwriter.Writer and frame.Writer.WriteMessage; every emitted byte string (header fields, sequence number, checksum, signature) must equal the model\'s. Non-trivial: model output not a bare rejection.; plus histories of 10..50 messages written through a real Node (custom endpoint, OutVersion 1 and 2, random ids) whose wire bytes must equal the same model\'s; the 54 initialisation configurations also through Node.Initialize',
+    rule='all 54 small initialisation configurations; write histories of 300..700 messages (beyond the 256 wrap) mixing decoded and raw messages, rejected writes (raw id outside the dialect, ids above 255 on v1) at random positions, over random configurations (version, system id, component id incl. 0, key, link id) through streamwriter.Writer and frame.Writer.WriteMessage; every emitted byte string (header fields, sequence number, checksum, signature) must equal the model\'s. Non-trivial: model output not a bare rejection.; plus histories of 10..50 messages written through a real Node (custom endpoint, OutVersion 1 and 2, random ids) whose wire bytes must equal the same model\'s; the 54 initialisation configurations also through Node.Initialize; every third node of the node histories has an incoming key only',
     assumptions=[],
     mismatch_meaning='an originated frame differs from the model proved to carry the configured identity, gapless sequence numbers and correct checksum: concrete write history',
 )
@@ -173,7 +173,7 @@ def cmp_scen(case, impl, model):
 
 P['C10'] = dict(
     bin='scen', compare=cmp_scen,
-    rule='real gomavlib.Node over 1..4 custom endpoints with scripted in-memory transports; per channel a history of valid frames (v1/v2, signed on keyed links), complete frames with a wrong checksum / signature / missing signature and junk without frame markers, fed in random chunks from concurrent feeders; a transport error ends a channel (close event) and the endpoint opens the next one with its own history; consumer fast / slow / bursty; 0..2 concurrent writers; GOMAXPROCS 1/2/16. Observed per channel: the ordered event sequence, compared for equality with the model prediction (open, one event per read result of the frame-reader model on the same bytes, close). Close-race scenarios (consumer absent while frames arrive, Close(), then ranging over Events()): the observation must be a prefix of the prediction. Non-trivial: at least one frame event predicted.; four channels decoding 300 truncated v2 payloads of the same message type at once (every frame tagged with channel and index: a channel must see exactly its own frames in order); a TCP server channel with a 300 ms idle time-out whose application pauses twice for longer than that while the peer keeps sending (nothing lost, channel stays open); one UDP datagram of 13 / 25 / 66 (thorough: 1..300) back-to-back frames sent to a UDP server endpoint and to a UDP client endpoint: every frame delivered in order, no parse error (finding F13); refused frames on links without a key may be signed; two or three consecutive frames with an id outside the dialect',
+    rule='real gomavlib.Node over 1..4 custom endpoints with scripted in-memory transports; per channel a history of valid frames (v1/v2, signed on keyed links), complete frames with a wrong checksum / signature / missing signature and junk without frame markers, fed in random chunks from concurrent feeders; a transport error ends a channel (close event) and the endpoint opens the next one with its own history; consumer fast / slow / bursty; 0..2 concurrent writers; GOMAXPROCS 1/2/16. Observed per channel: the ordered event sequence, compared for equality with the model prediction (open, one event per read result of the frame-reader model on the same bytes, close). Close-race scenarios (consumer absent while frames arrive, Close(), then ranging over Events()): the observation must be a prefix of the prediction. Non-trivial: at least one frame event predicted.; four channels decoding 300 truncated v2 payloads of the same message type at once (every frame tagged with channel and index: a channel must see exactly its own frames in order); a TCP server channel with a 300 ms idle time-out whose application pauses twice for longer than that while the peer keeps sending (nothing lost, channel stays open); one UDP datagram of 13 / 25 / 66 (thorough: 1..300) back-to-back frames sent to a UDP server endpoint and to a UDP client endpoint: every frame delivered in order, no parse error (finding F13); refused frames on links without a key may be signed; two or three consecutive frames with an id outside the dialect; a custom endpoint going through forty lives of ArduPilot peers that leave right after their heartbeat, stream requests enabled, the application writing: no event of a channel after its close event',
     assumptions=['scheduler perturbation (GOMAXPROCS, sleeps, Gosched) is search, not proof; the all-schedules claim is the LTS theorem', 'waiting is on predicted observables with a 20 s timeout'],
     mismatch_meaning='the event sequence the application observed from a channel differs from the sequence every execution of the node model produces (open first, one event per input in order, close last): concrete input history',
 )
@@ -186,21 +186,21 @@ P['C11'] = dict(
 )
 P['C13'] = dict(
     bin='scen', compare=cmp_scen,
-    rule='(a) 2..4 channels, one transport blocked in Write; 100..250 WriteMessageAll: every healthy channel must show all items in order (marker-terminated) and events must keep flowing; after release the stalled channel must show an ordered subsequence of at most 1+64 items (+marker). (b) transport Write failing at 1..3 random call positions: the wire must hold every other item, in order. (c) unencodable items (raw id outside the dialect; id > 255 on a V1 link) at random positions: every valid item must still reach the wire, sequence numbers gapless. Non-trivial: predicate evaluated on a non-empty wire.; (d) a Write stalls in a serial device at the k-th call and the read side then fails: close event with cause, the other channel goes on, Close returns; a TCP peer that stops reading for 3 s while the node floods 255-byte messages with a 200 ms write time-out (writes are cut by the deadline), then drains and keeps talking: a close event, or all ten later writes arrive',
+    rule='(a) 2..4 channels, one transport blocked in Write; 100..250 WriteMessageAll: every healthy channel must show all items in order (marker-terminated) and events must keep flowing; after release the stalled channel must show an ordered subsequence of at most 1+64 items (+marker). (b) transport Write failing at 1..3 random call positions: the wire must hold every other item, in order. (c) unencodable items (raw id outside the dialect; id > 255 on a V1 link) at random positions: every valid item must still reach the wire, sequence numbers gapless. Non-trivial: predicate evaluated on a non-empty wire.; (d) a Write stalls in a serial device at the k-th call and the read side then fails: close event with cause, the other channel goes on, Close returns; a TCP peer that stops reading for 3 s while the node floods 255-byte messages with a 200 ms write time-out (writes are cut by the deadline), then drains and keeps talking: a close event, or all ten later writes arrive; stream requests enabled and an ArduPilot heartbeat heard on a stalled channel with a full backlog: twenty later writes reach the other channel',
     assumptions=['scheduler perturbation is search; the all-schedules claims are the LTS theorems'],
     mismatch_meaning='a stalled or failing channel delayed others, exceeded its bounded backlog, reordered, or stayed open while discarding output: concrete write history',
 )
 
 P['C12'] = dict(
     bin='scen', compare=cmp_scen,
-    rule='real Node; Close() issued at scripted points: before the first event is consumed, reader blocked on an undelivered event, idle, writer blocked in the transport (a transport whose Write only returns on Close), channel mid-close (read error just before), traffic in flight, 100 pending writes — each with the consumer running and absent, 1..3 custom endpoints, 0..2 goroutines calling WriteMessageAll before, during and after Close, GOMAXPROCS 1/2/16; then network endpoints over loopback (TCP/UDP server with a peer, TCP client connected and in reconnect back-off, UDP client, UDP broadcast) and a node whose initialisation fails on its third endpoint. Observed: Close returns within 8 s, ranging over Events() ends, each custom transport closed exactly once, no goroutine running gomavlib/pion code is left, Write* callers returned without panic, TCP/UDP ports can be bound again. Every case expects the verdict ok. Non-trivial: every case.; read error while a Write is stuck in a serial device; a device handed out while Close is in progress must be closed; Close with a stuck channel whose queue has overflowed; Close() called directly after NewNode() (GOMAXPROCS 1/2/16, heartbeats on and off): no device may be opened after Close returned; odd but possible settings of the broadcast endpoint and a late-failing endpoint list: whatever the outcome of the initialisation, the local port is free after the failure or after Close; Close after 1..5 ms of a 100..500 microsecond heartbeat period (30 times); transports that release a blocked Read 300 ms late (one look for live goroutines 40 ms after Close returned); outcome-agnostic node settings with extreme numbers (stream request rate 65535 / 65536 / -1 / 2^40, ids 255, heartbeat types 255 / -1, v1 with a key, system id 0, time-outs of 1 ns) over TCP server + UDP server + custom endpoint, each on a port of its own: after a refusal or after Close the ports are free, no goroutine is left and the custom transport was closed exactly once when the node ran; a Node value taken through Initialize / Close three times (new custom transport each life, the same TCP server port): every Close returns, the event channel is closed, the port is free, no goroutine is left; Close after six heartbeats of two ArduPilot senders with stream requests enabled',
+    rule='real Node; Close() issued at scripted points: before the first event is consumed, reader blocked on an undelivered event, idle, writer blocked in the transport (a transport whose Write only returns on Close), channel mid-close (read error just before), traffic in flight, 100 pending writes — each with the consumer running and absent, 1..3 custom endpoints, 0..2 goroutines calling WriteMessageAll before, during and after Close, GOMAXPROCS 1/2/16; then network endpoints over loopback (TCP/UDP server with a peer, TCP client connected and in reconnect back-off, UDP client, UDP broadcast) and a node whose initialisation fails on its third endpoint. Observed: Close returns within 8 s, ranging over Events() ends, each custom transport closed exactly once, no goroutine running gomavlib/pion code is left, Write* callers returned without panic, TCP/UDP ports can be bound again. Every case expects the verdict ok. Non-trivial: every case.; read error while a Write is stuck in a serial device; a device handed out while Close is in progress must be closed; Close with a stuck channel whose queue has overflowed; Close() called directly after NewNode() (GOMAXPROCS 1/2/16, heartbeats on and off): no device may be opened after Close returned; odd but possible settings of the broadcast endpoint and a late-failing endpoint list: whatever the outcome of the initialisation, the local port is free after the failure or after Close; Close after 1..5 ms of a 100..500 microsecond heartbeat period (30 times); transports that release a blocked Read 300 ms late (one look for live goroutines 40 ms after Close returned); outcome-agnostic node settings with extreme numbers (stream request rate 65535 / 65536 / -1 / 2^40, ids 255, heartbeat types 255 / -1, v1 with a key, system id 0, time-outs of 1 ns) over TCP server + UDP server + custom endpoint, each on a port of its own: after a refusal or after Close the ports are free, no goroutine is left and the custom transport was closed exactly once when the node ran; a Node value taken through Initialize / Close three times (new custom transport each life, the same TCP server port): every Close returns, the event channel is closed, the port is free, no goroutine is left; Close after six heartbeats of two ArduPilot senders with stream requests enabled; client endpoints whose address can never be used beside a custom endpoint: Close returns',
     assumptions=['fairness of the Go scheduler and OS release of sockets are measured, not proved', 'goroutine-leak probe: stacks containing gomavlib or pion frames, polled up to 3 s'],
     mismatch_meaning='Close did not return, or left a goroutine, socket, open event channel or unclosed custom transport behind, or a Write* call blocked / panicked: the scenario description is the replay',
 )
 
 P['C14'] = dict(
     bin='scen', compare=cmp_scen,
-    rule='(1) pkg/timednetconn over a recording net.Conn: random Read/Write sequences, the recorded call trace (deadline armed before every call, deadline value within 20 percent of the configured timeout) compared with the model; (2) serial endpoint over fake devices (verif hook), reconnect period 60 ms: scripts of 2..6 outcomes (open failure / open ok then read error with a scripted cause): observed trace of open attempts, back-offs (inferred from gaps >= 0.7 period), open and close events with their cause compared with the provider model, two channels open at once flagged; (3) custom endpoint: close event carries the injected cause; (4) TCP client against a server that accepts, sends a frame and hangs up k times after a period with nothing listening: open/close alternation compared with the model; (5) TCP and UDP servers, idle timeout 200 ms: two peers get their own channels, the silent one is closed by a timeout inside [0.9 idle, 2 idle + 1.5 s], the talking one is not, a third peer is still accepted. Non-trivial: a trace with at least one channel.; in the serial scripts the devices with an odd cause have a Write stuck in the transport at the moment the read fails; a TCP client against a server whose accept queue is full (listen backlog 0): attempts end in dial time-outs, then the server accepts and the client must connect; (6) idle expiry against the timed model: a peer of a TCP / UDP server sends bursts with gaps of 60..340 ms (idle time-out 400 ms) and stops: the observed closing time must lie in [model - 60 ms, model + 600 ms] where the model gets the measured arrival times; the timednetconn call trace with scripted results of the wrapped connection (failed, timed-out, partial): handed back unchanged, next call made afresh; a healthy TCP client channel fed valid frames, junk, a wrong checksum and v1 frames with a right checksum and a payload of the wrong length: parse errors only, no close event, one connection; a UDP server with four peers whose datagrams start with a frame, with junk before a frame, never on a frame boundary (a sender joined mid-stream), with a junk byte before every frame: each gets its channel and at least three of its frames; the idle scenario runs on TCP / UDP server and client endpoints, the first run of each with arrivals at 0, 150, 450, 500 ms against a 400 ms time-out; a custom endpoint taken through two or three read faults: per channel open, the frames fed, close with the cause fed for that life',
+    rule='(1) pkg/timednetconn over a recording net.Conn: random Read/Write sequences, the recorded call trace (deadline armed before every call, deadline value within 20 percent of the configured timeout) compared with the model; (2) serial endpoint over fake devices (verif hook), reconnect period 60 ms: scripts of 2..6 outcomes (open failure / open ok then read error with a scripted cause): observed trace of open attempts, back-offs (inferred from gaps >= 0.7 period), open and close events with their cause compared with the provider model, two channels open at once flagged; (3) custom endpoint: close event carries the injected cause; (4) TCP client against a server that accepts, sends a frame and hangs up k times after a period with nothing listening: open/close alternation compared with the model; (5) TCP and UDP servers, idle timeout 200 ms: two peers get their own channels, the silent one is closed by a timeout inside [0.9 idle, 2 idle + 1.5 s], the talking one is not, a third peer is still accepted. Non-trivial: a trace with at least one channel.; in the serial scripts the devices with an odd cause have a Write stuck in the transport at the moment the read fails; a TCP client against a server whose accept queue is full (listen backlog 0): attempts end in dial time-outs, then the server accepts and the client must connect; (6) idle expiry against the timed model: a peer of a TCP / UDP server sends bursts with gaps of 60..340 ms (idle time-out 400 ms) and stops: the observed closing time must lie in [model - 60 ms, model + 600 ms] where the model gets the measured arrival times; the timednetconn call trace with scripted results of the wrapped connection (failed, timed-out, partial): handed back unchanged, next call made afresh; a healthy TCP client channel fed valid frames, junk, a wrong checksum and v1 frames with a right checksum and a payload of the wrong length: parse errors only, no close event, one connection; a UDP server with four peers whose datagrams start with a frame, with junk before a frame, never on a frame boundary (a sender joined mid-stream), with a junk byte before every frame: each gets its channel and at least three of its frames; the idle scenario runs on TCP / UDP server and client endpoints, the first run of each with arrivals at 0, 150, 450, 500 ms against a 400 ms time-out; a custom endpoint taken through two or three read faults: per channel open, the frames fed, close with the cause fed for that life; ReadTimeout 100 ms with IdleTimeout unset on a TCP server hearing one frame a second for three seconds: still open',
     assumptions=['deadline enforcement is the operating system\'s; expiry is checked inside a tolerant bracket (a deadline firing inside a frame surfaces as a parse error first, the next read closes the channel)', 'back-offs are observed through timing with tolerance'],
     mismatch_meaning='the observed lifecycle of channels (attempts, back-offs, open/close events and causes, idle expiry) differs from the provider model proved to reconnect after every failure with at most one channel open',
 )
